@@ -160,7 +160,7 @@ func c17Sig(o *Oracle, c spellCase) string {
 	t, _ := respell(c)
 	for _, bc := range []boolCase{c.boolCase, t} {
 		if ok, _, resp := c01Check(o, bc); !ok {
-			if s := siteOf(func() { runBool(bc) }, resp, "splitDiscard"); s != "" {
+			if s := siteOf(func() { runBool(bc) }, resp, "splitDiscard", "microSelfIntersect"); s != "" {
 				return s
 			}
 		}
